@@ -48,6 +48,8 @@ func (c *fctx) isSpecialCall(call *ast.CallExpr) bool {
 	}
 	m, _ := c.stdMethod(call)
 	switch m {
+	case "math/big.Int.Exp", "math/big.Int.Bytes", "math/big.Int.SetUint64", "math/big.Int.SetBytes", "math/big.Int.SetString":
+		return true
 	case "bytes.Buffer.Bytes", "bytes.Buffer.Write", "bufio.Reader.ReadByte", "bytes.Reader.ReadByte",
 		"hash.Hash.Write", "hash.Hash.Sum", "hash.Hash.Reset", "hash.Hash.Size":
 		return true
@@ -114,6 +116,18 @@ func (c *fctx) specialCallExpr(call *ast.CallExpr) (string, bool) {
 	}
 	m, recv := c.stdMethod(call)
 	switch m {
+	case "math/big.Int.Exp":
+		// z.Exp(x, y, m) = x**y mod |m| (m = 0: x**y); the receiver only provides the storage
+		return "(Go.bigExp " + c.expr(call.Args[0]) + " " + c.expr(call.Args[1]) + " " + c.expr(call.Args[2]) + ")", true
+	case "math/big.Int.Bytes":
+		return "(natBytesMin " + c.expr(recv) + ")", true
+	case "math/big.Int.SetUint64":
+		if nt, ok := c.natTerm(call.Args[0]); ok {
+			return "(" + nt + " : Nat)", true
+		}
+		c.fail(call, "SetUint64 argument")
+	case "math/big.Int.SetBytes":
+		return "(beNat " + c.expr(call.Args[0]) + ")", true
 	case "bytes.Buffer.Bytes":
 		return c.expr(recv), true
 	case "hash.Hash.Sum":
@@ -167,6 +181,20 @@ func (c *fctx) specialAssign(s *ast.AssignStmt) bool {
 	call, ok := s.Rhs[0].(*ast.CallExpr)
 	if !ok {
 		return false
+	}
+	if m, _ := c.stdMethod(call); m == "math/big.Int.SetString" {
+		// v, ok := new(big.Int).SetString(s, 16)
+		if len(s.Lhs) != 2 || len(call.Args) != 2 {
+			c.fail(s, "SetString results")
+		}
+		if tv := c.info.Types[call.Args[1]]; tv.Value == nil || tv.Value.ExactString() != "16" {
+			c.fail(s, "SetString with a base other than 16")
+		}
+		t := c.fresh("bn")
+		c.letPure(t, "", "Go.bigSetHex "+c.expr(call.Args[0]))
+		c.lvalSet(s.Lhs[0], t+".1")
+		c.lvalSet(s.Lhs[1], t+".2")
+		return true
 	}
 	if m, recv := c.stdMethod(call); m == "hash.Hash.Write" {
 		if len(s.Lhs) != 2 {
